@@ -1,14 +1,15 @@
 ------------------------------ MODULE MCPVector ------------------------------
 (* Exhaustive model of PVector + generator of behaviours ("one implementation test per
-   transition").  Version 0 is the vector  K+1, .., K+Base  (one run): Base = 0 is the small-scope
-   model from the empty vector; Base = 31, 32, 33, 64, 1056, .. LIFTS the same model to the lengths
-   where the real tree changes shape -- all indices, results and contents are still computed here.
+   transition").  Version 0 is the vector  K+1, .., K+b  (one run) for some b in Bases (one initial
+   state per base; Base, the length of version 0, never changes): b = 0 is the small-scope model
+   from the empty vector; b = 31, 32, 33, 64, 1056, .. LIFTS the same model to the lengths where the
+   real tree changes shape -- all indices, results and contents are still computed here.
    Index arguments are taken near both ends (and the middle) of the receiver.
    hist (hidden by the VIEW) is one path to the current state; the always-true action constraint
    EmitT prints, for every generated transition, that path + the step, the prescribed result and
    the prescribed content of every live version afterwards. *)
 EXTENDS PVector, FiniteSets, TLC, Json
-CONSTANTS Base, MaxVers, MaxGrow, CVals, AVals, CheckRefine
+CONSTANTS Bases, MaxVers, MaxGrow, CVals, AVals, CheckRefine
 VARIABLES vers, hist
 vars == <<vers, hist>>
 K == 1000
@@ -23,7 +24,8 @@ Ops(vs) ==
         \cup {[O0 EXCEPT !.op = "Iterate", !.v = p - 1], [O0 EXCEPT !.op = "Len", !.v = p - 1]}
         : p \in 1..Len(vs)}
 
-Init == /\ vers = <<[seq |-> Norm(<<Run(K + 1, Base)>>), kind |-> "whole"]>>
+Base == RLen(vers[1].seq)
+Init == /\ \E b \in Bases : vers = <<[seq |-> Norm(<<Run(K + 1, b)>>), kind |-> "whole"]>>
         /\ hist = <<>>
 \* a state holding MaxVers versions is a leaf; contents grow at most MaxGrow beyond Base
 Step(o) == /\ Len(vers) < MaxVers
@@ -43,7 +45,7 @@ RefinesArray == CheckRefine => \A o \in Ops(vers) : Refines(vers[o.v + 1].seq, o
 Laws == CheckRefine => \A k \in DOMAIN vers : \A x \in CVals : ArrayLaws(Expand(vers[k].seq), x)
 
 LastOp == LET h == hist'[Len(hist')] IN [O0 EXCEPT !.op = h[1], !.v = h[2], !.i = h[3], !.j = h[4], !.x = h[5]]
-EmitT == PrintT(ToJson([p |-> hist', r |-> Res(vers[LastOp.v + 1].seq, LastOp),
+EmitT == PrintT(ToJson([b |-> Base, p |-> hist', r |-> Res(vers[LastOp.v + 1].seq, LastOp),
                         vers |-> [k \in DOMAIN vers' |-> vers'[k].seq],
                         kinds |-> [k \in DOMAIN vers' |-> vers'[k].kind]]))
 =============================================================================
